@@ -896,25 +896,45 @@ def c02_clockstep(model, meta):
     pid = 4800
     stat1 = b"cpu  1 2 3 4 5 6 7 8 9 10\nbtime 1700000000\n"
     stat2 = b"cpu  1 2 3 4 5 6 7 8 9 10\nbtime 1700000005\n"
-    with fake_procfs({f"{pid}/stat": _stat_with_start(pid, 12345), "stat": stat1}) as d:
+    ops = {"create_time": lambda p: p.create_time(), "is_running": lambda p: p.is_running(), "hash": lambda p: hash(p),
+           "name": lambda p: p.name(), "boot_time": lambda p: psutil.boot_time(), "str": lambda p: str(p)}
+    start = int(model.get("start", 12345))
+    with fake_procfs({f"{pid}/stat": _stat_with_start(pid, start), "stat": stat1}) as d:
         _pslinux.BOOT_TIME = None
         p1 = psutil.Process(pid)
+        for op in model.get("before", []):        # other psutil calls made before the clock is stepped
+            ops[op](p1)
         with open(os.path.join(d, "stat"), "wb") as f:
             f.write(stat2)
         psutil.boot_time()
+        for op in model.get("after", []):         # ... and after it
+            ops[op](p1)
         p2 = psutil.Process(pid)
         eq = p1 == p2
         h = hash(p1) == hash(p2)
         running = p1.is_running()
+        running2 = p2.is_running()
+        eq2 = p1 == p2 and p2 == p1 and not (p1 != p2)
         _pslinux.BOOT_TIME = None
-    return {"env": {}, "result": {"p1 == p2": eq, "same hash": h, "p1.is_running()": running,
-                                  "ident1": p1._ident, "ident2": p2._ident}, "exc": None,
-            "verdict": not (eq and h and running)}
+    return {"env": {}, "result": {"p1 == p2": eq, "same hash": h, "p1.is_running()": running, "p2.is_running()": running2,
+                                  "still equal": eq2, "ident1": p1._ident, "ident2": p2._ident}, "exc": None,
+            "verdict": not (eq and h and running and running2 and eq2)}
 
 
 @search("c02:clockstep")
 def c02_clockstep_search(meta, seed, budget):
-    yield {}
+    import itertools
+    names = ["create_time", "is_running", "hash", "name", "boot_time", "str"]
+    n = 0
+    for start in (12345, 0):                 # a process started 0 ticks after boot (init, kthreadd) has an identity too
+        yield {"start": start}
+        for k in (1, 2):
+            for before in itertools.permutations(names, k):
+                for after in ([], ["create_time"], ["is_running", "create_time"]):
+                    yield {"start": start, "before": list(before), "after": after}
+                    n += 1
+                    if n >= budget:
+                        return
 
 
 # ---------------------------------------------------------------------------
